@@ -152,7 +152,7 @@ pub fn run(ctx: &Ctx) -> (Spec, Report) {
                 continue;
             }
             let n_crates = if multi { 3 } else { 2 };
-            let reps = ctx.tier.pick(1, 4);
+            let reps = ctx.tier.pick(2, 6);
             for _ in 0..reps {
                 let (vs, ch) = mk_versions(&mut rng, 2, n_crates, &mut counter);
                 for len in 1..=4usize {
@@ -164,7 +164,7 @@ pub fn run(ctx: &Ctx) -> (Spec, Report) {
             }
         }
     }
-    let n_random = ctx.tier.pick(60, 1200);
+    let n_random = ctx.tier.pick(240, 2000);
     for _ in 0..n_random {
         let lang = ALL_LANGS[rng.below(6)];
         let multi = rng.coin() && !matches!(lang, LangId::Scala | LangId::Go);
